@@ -116,6 +116,15 @@ theorem zip_weave_filter (q : Int × Int → Bool) (hq : ∀ i, q (i, 0) = false
 theorem mergeU_mem (A B : List Int) : ∀ x ∈ mergeU A B, x ∈ A ∨ x ∈ B := by
   fun_induction mergeU A B <;> intro x hx <;> simp_all <;> grind
 
+theorem mem_mergeU_left (A B : List Int) : ∀ x ∈ A, x ∈ mergeU A B := by
+  fun_induction mergeU A B <;> intro x hx <;> simp_all <;> grind
+
+theorem mem_mergeU_right (A B : List Int) : ∀ x ∈ B, x ∈ mergeU A B := by
+  fun_induction mergeU A B <;> intro x hx <;> simp_all <;> grind
+
+theorem mem_mergeU_iff (A B : List Int) (x : Int) : x ∈ mergeU A B ↔ x ∈ A ∨ x ∈ B :=
+  ⟨mergeU_mem A B x, fun h => h.elim (mem_mergeU_left A B x) (mem_mergeU_right A B x)⟩
+
 theorem mergeU_sorted (A B : List Int) (hA : A.Pairwise (· < ·)) (hB : B.Pairwise (· < ·)) :
     (mergeU A B).Pairwise (· < ·) := by
   fun_induction mergeU A B with
